@@ -316,7 +316,9 @@ def tasks(tier):
     if tier != 'quick':
         # lines of four and five cells
         t += [('contracts.c03', 'task_solve_n', dict(n=n, rows=[i])) for n in (16, 21) for i in range(n)]
-    from . import c03_lines, c03_dispatch
+    from . import c03_lines, c03_dispatch, c03_solve, c03_lean
+    t += c03_solve.tasks(tier)
+    t += c03_lean.tasks(tier)
     t += c03_lines.tasks(tier)
     t += c03_dispatch.tasks(tier)
     return t
@@ -325,8 +327,13 @@ def tasks(tier):
 LEVEL = ('Deductive proof over the real source of the four smoothing kernels, blocks_to_amat and solve: master identity '
          '(assembled local/line system == C02 operator restricted to the relaxed block, for all values of the unknowns), '
          'write-back map, PEC frame, affinity, bounds -- for a symbolic grid, symbolic block position, both sweep '
-         'directions; core.solve end-to-end (exact, all matrix entries symbolic) for n=6 (complete for the point smoother), n=1 and n=11 (lines of three cells).')
+         'directions; core.solve for EVERY number of unknowns n: loop invariants (one per loop, per storage cell) show that the code computes the banded '
+         'LDL^T recurrences (spec functions D, L, Y, Z, X), and the Lean 4 / Mathlib lemma lean/LDLT.lean (re-checked on every run, any field) shows that '
+         'the recurrences imply A x = b and, for non-zero pivots, uniqueness; plus end-to-end SSA proofs for n=6, 1, 11 as a cross-check of the generator.')
 ASSUMPTIONS = ['pivots of the LDL^T factorisation are non-zero (documented precondition of core.solve)',
+               'the spec functions D, L, Y, Z, X, SD, SL, SY, SX of contracts/c03_solve.py are introduced by their defining equations (a well-founded recursion on the '
+               'column / row index, hence consistent); the correspondence between the bridge obligations (z3) and the hypotheses of lean/LDLT.lean is by inspection of two '
+               'texts kept side by side (contracts/c03_lean.py checks the Lean statements verbatim)',
                'lemma L-C03 (equational logic over the contracts): master identity + solve post (Asym x = b) => residual of the relaxed block is 0 afterwards; '
                'master identity + uniqueness of the solution => exact solutions are fixed points',
                'the arrays ex,ey,ez,sx,... passed to a kernel are pairwise distinct objects (holds at the call site solver.smoothing)']
